@@ -214,7 +214,7 @@ func (r *mergeRun) zeroSurvivors() bool { return len(r.want.Docs) == 0 }
 func init() {
 	register(&explore.Prop{
 		ID: "C02", Level: levelMC, Explorer: "E1 input-space enumerator",
-		Rule: "every list of <=k segments (each a MIX batch of <=2 docs over K kinds, incl. the empty batch) x every deletion bitmap (nil, empty, every subset) x configurations (input chunk modes, input form built/loaded/previously merged, output mode); merged with the real merger, loaded, observed and compared with (a) the reference model and (b) New(survivors); MERGE-LARGE (cardinalities / document counts around 1024); MERGE-ALIAS (the same segment object twice in one list, [S,S] and [S,T,S], every pair of bitmaps); MERGE(2,3,2) under 8 norm tables of unusual float32 bit patterns; MERGE-AGAIN (the same segment objects merged a second time with other bitmaps / in swapped order: the later merge is checked); MERGE-TERM (one (field, term) whose posting per document is one of {absent, f1, f1+loc, f2+loc, f300+2 locs}: every pair of segments of <=2 documents, inputs built or previously merged, with and without a deletion); MERGE-EXTREME (batches with extreme values: huge frequencies/location numbers, 70 000-byte terms and values, thousands of terms/locations/instances - alone, with a partner, twice); " +
+		Rule: "every list of <=k segments (each a MIX batch of <=2 docs over K kinds, incl. the empty batch) x every deletion bitmap (nil, empty, every subset) x configurations (input chunk modes, input form built/loaded/previously merged, output mode); merged with the real merger, loaded, observed and compared with (a) the reference model and (b) New(survivors); MERGE-LARGE (cardinalities / document counts around 1024); MERGE-ALIAS (the same segment object twice in one list, [S,S] and [S,T,S], every pair of bitmaps); MERGE(2,3,2) under 8 norm tables of unusual float32 bit patterns; LARGE-1HIT (a term with 1023..2048 postings meeting the same term as a 1-hit entry of a previously merged input, that document deleted or kept); MERGE-AGAIN (the same segment objects merged a second time with other bitmaps / in swapped order: the later merge is checked); MERGE-TERM (one (field, term) whose posting per document is one of {absent, f1, f1+loc, f2+loc, f300+2 locs}: every pair of segments of <=2 documents, inputs built or previously merged, with and without a deletion); MERGE-EXTREME (batches with extreme values: huge frequencies/location numbers, 70 000-byte terms and values, thousands of terms/locations/instances - alone, with a partner, twice); " +
 			"distinct = distinct (configuration, segment list, bitmaps); non-trivial = >=1 dropped doc, or two segments share a term, or field lists differ",
 		Assumptions: commonAssumptions, Budget: qBudget, Run: runC02,
 	})
@@ -292,6 +292,85 @@ func runC02(c *explore.Ctx) {
 	extremeMerges(c, check)
 	termMerges(c, check)
 	againMerges(c, check)
+	large1HitMerges(c, check)
+}
+
+// large1HitMerges: LARGE-1HIT - a term with n postings in one input (n around the multiples of 1024
+// that decide the adaptive chunk size) meets the SAME term as a 1-hit entry of a previously merged
+// one-document input, whose document is deleted or kept in this merge, in both orders: cardinality
+// bookkeeping must count what survives.
+func large1HitMerges(c *explore.Ctx, check func(scope string, idx int64, r *mergeRun)) {
+	scope := "LARGE-1HIT"
+	var idx int64
+	for _, n := range []int{1023, 1024, 1025, 2047, 2048} {
+		for dropOne := 0; dropOne < 2; dropOne++ {
+			for order := 0; order < 2; order++ {
+				my := idx
+				idx++
+				if !c.MineIdx(scope, my) || c.Expired() {
+					continue
+				}
+				c.Eval()
+				c.Nontrivial()
+				big := gen.Large(n, 0, 1)
+				for j := range big {
+					if j%97 == 0 || j == n-1 {
+						big[j] = append(gen.Doc{gen.IDField("s0", j)}, big[j]...)
+					}
+				}
+				one := []model.Doc{{gen.IDField("s1", 0), {N: "a", Len: 1, Terms: []model.Term{{T: "x", Freq: 1}}}}}
+				r := &mergeRun{cfg: mergeCfg{Name: fmt.Sprintf("large-1hit n=%d drop-1hit=%v order=%d", n, dropOne == 1, order), InModes: []uint32{1025}, Out: 1025}, alias: true}
+				bad := false
+				add := func(b []model.Doc, form int, drops []uint32) {
+					sg, err := build(b, 1025)
+					if err != nil {
+						bad = true
+						return
+					}
+					ls := model.Build(b)
+					if form != 0 {
+						sg, ls, err = inputForm(sg, ls, form, 1025)
+						if err != nil {
+							bad = true
+							return
+						}
+					}
+					r.segs, r.lsegs, r.batches = append(r.segs, sg), append(r.lsegs, ls), append(r.batches, b)
+					sp := gen.SegSpec{}
+					if drops == nil {
+						r.drops, r.dropSets = append(r.drops, nil), append(r.dropSets, nil)
+					} else {
+						r.drops = append(r.drops, bitmapOf(drops...))
+						ds := map[uint64]bool{}
+						for _, d := range drops {
+							ds[uint64(d)] = true
+						}
+						r.dropSets = append(r.dropSets, ds)
+						sp.DropForm, sp.Drops = 1, drops
+					}
+					r.specs = append(r.specs, sp)
+				}
+				var d1 []uint32
+				if dropOne == 1 {
+					d1 = []uint32{0}
+				}
+				if order == 0 {
+					add(big, 0, nil)
+					add(one, 2, d1)
+				} else {
+					add(one, 2, d1)
+					add(big, 0, []uint32{5})
+				}
+				if bad {
+					c.Violate(scope, my, sigOf(c.Prop, "inputs", "error: build"), "building the inputs failed", r.cfg.Name)
+					continue
+				}
+				r.want, r.wantNums = model.Merge(r.lsegs, r.dropSets)
+				r.run()
+				check(scope, my, r)
+			}
+		}
+	}
 }
 
 // againMerges: MERGE-AGAIN - the same segment OBJECTS are merged twice with different deletion
